@@ -33,7 +33,7 @@ META = {
     "rule": "case = one schedule (scope kind, worker programs, decisions); non-trivial = >=1 preemption and >=1 remove(); distinct by (kind, programs, switch trace digest)",
     "shards": {"quick": 8, "thorough": 16},
     "soft_s": {"quick": 45, "thorough": 600},
-    "require": ["schedules", "preemptions", "line_events", "registry_calls", "removes", "closes_observed", "shared_scope_races"],
+    "require": ["schedules", "preemptions", "line_events", "registry_calls", "removes", "closes_observed", "shared_scope_races", "generation_runs", "thread_idents_reused"],
     "assumptions": ["threading.local gives per-thread storage"],
 }
 
@@ -197,6 +197,54 @@ def run_schedule(ctx, orm, exc, sched_mod, kind, progs, rng, forced=None):
     return s
 
 
+def run_generations(ctx, orm, sched_mod, rng, kind):
+    """Thread *lifecycle*: a generation of threads uses the registry and terminates
+    without remove(); a later generation (whose OS thread identifiers are typically
+    recycled) must not be handed a Session that belonged to a terminated thread's scope.
+    Judged for thread scopes only (thread-local registry, per-thread scopefunc is keyed
+    on the identifier by construction and therefore not judged here)."""
+    import threading
+
+    factory = orm.sessionmaker()
+    reg = orm.scoped_session(factory)
+    owner = {}        # id(session) -> (generation, worker)
+    keep = []
+    idents = [set(), set()]
+    for gen in (0, 1):
+        s = sched_mod.Scheduler(rng, switch_prob=0.3)
+
+        def worker(name, gen=gen):
+            def run():
+                idents[gen].add(threading.get_ident())
+                sess = reg()
+                keep.append(sess)
+                prev = owner.get(id(sess))
+                if prev is not None and prev != (gen, name):
+                    ctx.violation(
+                        "thread-scope-inherited-session-of-terminated-thread" if prev[0] != gen else "scopes-share-session",
+                        f"{name} (generation {gen}) was handed the Session of {prev[1]} (generation {prev[0]}) kind={kind}",
+                        {"kind": kind, "generation": gen},
+                    )
+                owner[id(sess)] = (gen, name)
+                if reg() is not sess:
+                    ctx.violation("same-scope-different-session", f"{name}: second call returned another Session (generations)", {"kind": kind})
+
+            return run
+
+        for i in range(3):
+            s.spawn(worker(f"g{gen}w{i}"), f"g{gen}w{i}")
+        s.run()
+        ctx.count("schedules")
+        ctx.count("preemptions", s.preemptions)
+        ctx.count("line_events", s.line_events)
+    reused = len(idents[0] & idents[1])
+    ctx.count("generation_runs")
+    ctx.count("thread_idents_reused", reused)
+    ctx.case({"generations": kind, "reused": reused, "n": ctx.counters["generation_runs"], "shard": ctx.shard}, nontrivial=reused > 0)
+    for sess in keep:
+        sess.close()
+
+
 def gen_prog(rng, n):
     return [rng.choice(["call", "call", "proxy", "remove", "remove", "configure"]) for _ in range(n)]
 
@@ -214,13 +262,17 @@ def run(ctx):
     with instr:
         n = ctx.pick({"quick": 500, "thorough": 15000})
         for it in range(n):
-            if it >= 12 and not ctx.budget_ok():
+            if it >= 12 and not ctx.budget_ok(0.75):
                 break
             kind = ["threadlocal", "per_thread", "shared"][it % 3]
             progs = [gen_prog(rng, rng.randint(3, 7)) for _ in range(rng.randint(2, 4))]
             run_schedule(ctx, orm, exc, sched_mod, kind, progs, rng)
             if it < 3:
                 ctx.sample({"kind": kind, "progs": progs})
+        for it in range(ctx.pick({"quick": 25, "thorough": 400})):
+            if it >= 5 and not ctx.budget_ok(0.9):
+                break
+            run_generations(ctx, orm, sched_mod, rng, "threadlocal")
         # single forced preemptions, exhaustively, on a small configuration
         for kind in ("shared", "per_thread", "threadlocal"):
             progs = [["call", "remove", "call"], ["call", "call", "remove"]]
